@@ -705,8 +705,8 @@ def panel_cases(tier):
     cases = [dict(model="plate_clt_donnell_bardell", m=4, n=4, P=1000., wload=0.001, init=(3, 10), maxNumIter=30),
              dict(model="plate_clt_donnell_bardell", m=4, n=4, P=30000., wload=5.0, init=(1, 1), maxNumIter=4)]
     if tier != "quick":
-        cases += [dict(model="cpanel_clt_donnell_bardell", m=5, n=5, P=20000., wload=20.0, init=(1, 2), maxNumIter=5),
-                  dict(model="plate_clt_donnell_bardell", m=6, n=6, P=1000., wload=0.001, init=(3, 10), maxNumIter=30)]
+        cases += [dict(model="cpanel_clt_donnell_bardell", m=4, n=4, P=20000., wload=20.0, init=(1, 2), maxNumIter=5),
+                  dict(model="plate_clt_donnell_bardell", m=5, n=5, P=3000., wload=1.0, init=(1, 2), maxNumIter=6)]
     return cases
 
 
